@@ -138,3 +138,43 @@ Proof.
   intros H. apply (fit_exact _ z 0); [lia | exact H|].
   unfold QcZ, Q2Qc. cbn [this]. rewrite Qred_correct. reflexivity.
 Qed.
+
+(* ---- when the operator overflows: exactly for magnitudes beyond the 96-bit
+   integer range (no scale fits, not even scale 0) ---- *)
+Lemma rhe_le_bound n d M : 0 <= M -> Z.abs n <= M * Zpos d -> Z.abs (rhe n d) <= M.
+Proof.
+  intros HM Hn. pose proof (rhe_bounds n d) as Hb. nia.
+Qed.
+
+Lemma fit_from_total s n d :
+  Z.abs n <= max_mant * Zpos d -> exists r, fit_from s n d = Some r.
+Proof.
+  intros Hn. induction s as [|s IH]; cbn [fit_from].
+  - replace (n * Zpos (p10 0)) with n by (cbn; lia).
+    assert (H : Z.abs (rhe n d) <= max_mant) by (apply rhe_le_bound; [unfold max_mant; lia | exact Hn]).
+    destruct (Z.leb_spec (Z.abs (rhe n d)) max_mant); [eexists; reflexivity | lia].
+  - destruct (Z.leb (Z.abs (rhe (n * Zpos (p10 (S s))) d)) max_mant); [eexists; reflexivity | exact IH].
+Qed.
+
+(* a value of magnitude at most 2^96 - 1 never overflows *)
+Theorem fit_total_in_range (q : Qc) :
+  Z.abs (Qnum (this q)) <= max_mant * Zpos (Qden (this q)) -> exists r, fit q = Some r.
+Proof. intros H. unfold fit. apply fit_from_total. exact H. Qed.
+
+Lemma fit_from_none s n d :
+  fit_from s n d = None -> max_mant < Z.abs (rhe n d).
+Proof.
+  induction s as [|s IH]; cbn [fit_from].
+  - replace (n * Zpos (p10 0)) with n by (cbn; lia).
+    destruct (Z.leb_spec (Z.abs (rhe n d)) max_mant); [discriminate | intros _; assumption].
+  - destruct (Z.leb (Z.abs (rhe (n * Zpos (p10 (S s))) d)) max_mant); [discriminate | exact IH].
+Qed.
+
+(* an overflow means the exact value rounds (to an integer) beyond 2^96 - 1:
+   its magnitude is at least 2^96 - 1/2 *)
+Theorem fit_none_magnitude (q : Qc) :
+  fit q = None -> 2 * max_mant * Zpos (Qden (this q)) + Zpos (Qden (this q)) <= 2 * Z.abs (Qnum (this q)).
+Proof.
+  unfold fit. intros H. apply fit_from_none in H.
+  pose proof (rhe_bounds (Qnum (this q)) (Qden (this q))) as Hb. nia.
+Qed.
